@@ -28,6 +28,8 @@ type Stub struct {
 	// Modifies lists the Modify streams opened through this stub (for harness-side fault injection and census).
 	Modifies []*ModifyStream
 	Gets     []*GetStream
+	// OnModify, if set, is called with every new Modify stream before any thread can use it (fault set-up).
+	OnModify func(st *ModifyStream)
 }
 
 // New returns a stub for srv.
@@ -65,6 +67,9 @@ func (s *Stub) Modify(ctx context.Context, opts ...grpc.CallOption) (grpc.BidiSt
 		abort: make(chan struct{}), done: make(chan struct{}), hret: make(chan struct{}), SendFailAt: -1, RecvFailAt: -1,
 	}
 	s.Modifies = append(s.Modifies, st)
+	if s.OnModify != nil {
+		s.OnModify(st)
+	}
 	rt.Go("server.Modify", func() {
 		err := s.Srv.Modify(&modifyServer{st: st})
 		st.result = err
@@ -185,7 +190,9 @@ func (c *modifyClient) Header() (metadata.MD, error) { return nil, nil }
 func (c *modifyClient) Trailer() metadata.MD         { return nil }
 func (c *modifyClient) Context() context.Context     { return c.ctx }
 func (c *modifyClient) SendMsg(m any) error          { return c.Send(m.(*spb.ModifyRequest)) }
-func (c *modifyClient) RecvMsg(m any) error          { return status.Error(codes.Unimplemented, "wire: RecvMsg") }
+func (c *modifyClient) RecvMsg(m any) error {
+	return status.Error(codes.Unimplemented, "wire: RecvMsg")
+}
 
 type modifyServer struct{ st *ModifyStream }
 
@@ -231,7 +238,9 @@ func (s *modifyServer) SendHeader(metadata.MD) error { return nil }
 func (s *modifyServer) SetTrailer(metadata.MD)       {}
 func (s *modifyServer) Context() context.Context     { return context.Background() }
 func (s *modifyServer) SendMsg(m any) error          { return s.Send(m.(*spb.ModifyResponse)) }
-func (s *modifyServer) RecvMsg(m any) error          { return status.Error(codes.Unimplemented, "wire: RecvMsg") }
+func (s *modifyServer) RecvMsg(m any) error {
+	return status.Error(codes.Unimplemented, "wire: RecvMsg")
+}
 
 // --- Get -----------------------------------------------------------------------------------------------------
 
